@@ -146,3 +146,226 @@ Example dup_then_continue :
       (model_trace [3; 2] (Some (EDup 0)) true [100; 100; 100; 100])
   = [(0, 3, true); (2, 0, true); (0, 2, true); (1, 0, true)]%Z.
 Proof. vm_compute. reflexivity. Qed.
+
+(* ============================================================================
+   MULTIPLEXED STREAMS (yamux as go-libp2p uses it; model in Mux.v, the replay
+   against tapped sessions of the real transport and the monitor in SpecMux.v).
+   Everything below holds for every number of streams on the connection, every
+   list of Writes per stream, every interleaving of the streams' frames that
+   keeps each stream's own order (the receiving session sees an arbitrary list
+   of operations [rops]; its frames tagged [sid] are, in order, a prefix of what
+   [sid]'s sender emitted — that is what an order-preserving merge means for one
+   stream), every interleaving of deliveries with Reads of any buffer size and
+   with the reader's own half-close.  No bounds.
+   ============================================================================ *)
+From Verif Require Import c02.Mux c02.Proofs_Mux.
+From Verif Require c02.SpecMux.
+
+(* the configuration go-libp2p gives yamux (re-read from p2p/muxer/yamux on every run) *)
+Theorem c02_mux_consts_spec :
+  (yamux_InitialStreamWindowSize = 262144)%Z /\ (yamux_MaxMessageSize = 65536)%Z /\
+  (yamux_MaxStreamWindowSize = 16777216)%Z /\ (yamux_MaxMessageSize - SpecMux.HDR = 65524)%Z.
+Proof. vm_compute. repeat split; reflexivity. Qed.
+Print Assumptions c02_mux_consts_spec.
+
+(* SENDER: for every sequence of Writes, window updates, CloseWrite, Reset on a
+   stream: the Data frames carry a prefix of the bytes the Writes accepted (all
+   of them while nothing is pending), exactly once and in order; every frame
+   carries the stream's id, Data frames have 1..M bytes and no flags;
+   (e) FLOW CONTROL: bytes sent = initial window + credit received - window left,
+   so never more than the peer granted; and the frame/credit sequence an observer
+   sees passes the checker [valid_cut] that the harness runs on the tapped frames
+   of the real implementation *)
+Theorem c02_mux_sender_cut : forall M W0 sid ops,
+  let rr := snd_run M (snd0 W0 sid) [] [] ops in
+  (exists rest, payload (ev_frames (sr_ev rr)) ++ rest = sr_acc rr /\
+                (is_open (s_st (sr_st rr)) = true -> rest = s_pend (sr_st rr))) /\
+  Forall (fun f => f_sid f = sid /\ (is_data f = true -> data_ok M sid f)) (ev_frames (sr_ev rr)) /\
+  length (payload (ev_frames (sr_ev rr))) + s_win (sr_st rr) = W0 + ev_credit (sr_ev rr) /\
+  valid_cut M W0 (sr_ev rr) = true.
+Proof. exact sender_cut_l. Qed.
+Print Assumptions c02_mux_sender_cut.
+
+(* the checker by itself bounds the bytes in flight, at every point of the
+   sequence (every prefix of an accepted sequence is accepted) *)
+Theorem c02_mux_window_rules : forall M evs1 evs2 w,
+  valid_cut M w (evs1 ++ evs2) = true ->
+  length (payload (ev_frames evs1)) <= w + ev_credit evs1.
+Proof. intros M evs1 evs2 w H. eapply valid_cut_bound, valid_cut_prefix, H. Qed.
+Print Assumptions c02_mux_window_rules.
+
+(* Writes that completed, then CloseWrite: all accepted bytes are on the wire,
+   a FIN follows, and no data comes after a FIN or RST (whatever is done afterwards) *)
+Theorem c02_mux_sender_halfclose : forall M W0 sid w more,
+  let r1 := snd_run M (snd0 W0 sid) [] [] w in
+  is_open (s_st (sr_st r1)) = true -> s_pend (sr_st r1) = [] ->
+  let rr := snd_run M (snd0 W0 sid) [] [] (w ++ SCloseW :: more) in
+  payload (ev_frames (sr_ev rr)) = sr_acc rr /\ sr_acc rr = sr_acc r1 /\
+  existsb f_fin (ev_frames (sr_ev rr)) = true /\
+  late false (ev_frames (sr_ev rr)) = false.
+Proof.
+  intros M W0 sid w more r1 O P rr.
+  destruct (sender_closed_complete_l M W0 sid w more O P) as (A & B & C).
+  repeat split; auto. apply snd_run_late; [reflexivity|discriminate].
+Qed.
+Print Assumptions c02_mux_sender_halfclose.
+
+(* (a) HEADLINE, both ends: the Reads on a stream return a prefix of what the
+   Writes on that stream accepted — no byte of another stream, nothing twice,
+   nothing skipped, nothing reordered *)
+Theorem c02_mux_stream_fidelity : forall M W0 MAXW sid sops rops,
+  let sr := snd_run M (snd0 W0 sid) [] [] (SOpen false :: sops) in
+  let '(s, outs) := ses_run W0 MAXW ses0 [] rops in
+  (exists tl, frames_for sid (frames_in rops) ++ tl = ev_frames (sr_ev sr)) ->
+  exists rest, delivered sid outs ++ rest = sr_acc sr.
+Proof. exact mux_end_to_end_l. Qed.
+Print Assumptions c02_mux_stream_fidelity.
+
+(* ... and everything, once all frames of the stream were handed over and the
+   reader has emptied the buffer *)
+Theorem c02_mux_stream_complete : forall M W0 MAXW sid sops rops,
+  let sr := snd_run M (snd0 W0 sid) [] [] (SOpen false :: sops) in
+  let '(s, outs) := ses_run W0 MAXW ses0 [] rops in
+  frames_for sid (frames_in rops) = ev_frames (sr_ev sr) ->
+  payload (ev_frames (sr_ev sr)) = sr_acc sr ->
+  broken s = false ->
+  forall r, lookup sid (streams s) = Some r -> r_buf r = [] ->
+  delivered sid outs = sr_acc sr.
+Proof. exact mux_end_to_end_complete_l. Qed.
+Print Assumptions c02_mux_stream_complete.
+
+(* "every order-preserving interleaving": n streams with pairwise different ids,
+   each sender's sequence carrying its own id (c02_mux_sender_cut); on ANY merge of
+   the n sequences that keeps each one's order, the frames tagged with the i-th id
+   are exactly the i-th sequence — which is the hypothesis of the two theorems
+   above when all (resp. a prefix) of the merged frames were handed over *)
+Theorem c02_mux_interleaving : forall ids fss w i,
+  NoDup ids -> length ids = length fss ->
+  (forall j sid fs, nth_error ids j = Some sid -> nth_error fss j = Some fs -> Forall (fun f => f_sid f = sid) fs) ->
+  Interleave fss w ->
+  forall sid fs, nth_error ids i = Some sid -> nth_error fss i = Some fs ->
+  frames_for sid w = fs.
+Proof. exact interleave_proj_l. Qed.
+Print Assumptions c02_mux_interleaving.
+
+(* receiver alone, against ANY frames (not only an honest sender's): what the
+   Reads on [sid] return is a prefix of the payload of the frames tagged [sid],
+   provided the stream's first frame carries SYN *)
+Theorem c02_mux_no_crosstalk : forall W0 MAXW rops sid,
+  let '(s, outs) := ses_run W0 MAXW ses0 [] rops in
+  head_syn (frames_for sid (frames_in rops)) = true ->
+  exists rest, delivered sid outs ++ rest = payload (frames_for sid (frames_in rops)).
+Proof. exact mux_prefix_l. Qed.
+Print Assumptions c02_mux_no_crosstalk.
+
+(* (b) after any history, a Read reports EOF only if a FIN of that stream was
+   delivered, and then everything that arrived before has been handed out *)
+Theorem c02_mux_eof_after_fin : forall W0 MAXW rops sid n t,
+  let '(s, outs) := ses_run W0 MAXW ses0 [] rops in
+  forall s' wu, ses_step W0 MAXW s (RRead sid n t) = (s', ORead sid REOF wu) ->
+  existsb f_fin (frames_for sid (frames_in rops)) = true /\
+  (head_syn (frames_for sid (frames_in rops)) = true ->
+   late false (frames_for sid (frames_in rops)) = false -> broken s = false ->
+   delivered sid outs = payload (frames_for sid (frames_in rops))).
+Proof. exact mux_eof_l. Qed.
+Print Assumptions c02_mux_eof_after_fin.
+
+(* (c) half-close followed by further reads: [rops] above ranges over lists that
+   contain the reader's own CloseWrite anywhere, so c02_mux_stream_fidelity /
+   _complete already cover it; in particular the exact-delivery equation holds
+   right after any CloseWrite and for everything that arrives later *)
+Theorem c02_mux_halfclose_then_reads : forall W0 MAXW rops1 rops2 sid,
+  let rops := rops1 ++ RCloseW sid :: rops2 in
+  let '(s, outs) := ses_run W0 MAXW ses0 [] rops in
+  head_syn (frames_for sid (frames_in rops)) = true ->
+  late false (frames_for sid (frames_in rops)) = false ->
+  broken s = false ->
+  forall r, lookup sid (streams s) = Some r ->
+  delivered sid outs ++ concat (r_buf r) = payload (frames_for sid (frames_in rops)).
+Proof. intros W0 MAXW rops1 rops2 sid rops. exact (mux_exact_l W0 MAXW rops sid). Qed.
+Print Assumptions c02_mux_halfclose_then_reads.
+
+(* (d) an RST reaching a stream whose read side is open resets it, and from then
+   on every Read on it fails and hands out nothing, whatever else happens *)
+Theorem c02_mux_rst_is_error : forall W0 MAXW s r f s1 o rops outs,
+  broken s = false -> lookup (f_sid f) (streams s) = Some r -> r_live r = true -> r_rd r = HOpen ->
+  f_syn f = false -> f_fin f = false -> f_rst f = true -> is_data f = false ->
+  ses_step W0 MAXW s (RDeliver f) = (s1, o) ->
+  let '(s', outs') := ses_run W0 MAXW s1 outs rops in
+  exists new, outs' = outs ++ new /\ Forall (read_fails (f_sid f)) new /\
+              delivered (f_sid f) outs' = delivered (f_sid f) outs.
+Proof.
+  intros W0 MAXW s r f s1 o rops outs B L Lv R Sy Fi Rs Da H.
+  destruct (rst_resets_l W0 MAXW s r f s1 o B L Lv R Sy Fi Rs Da H) as (r' & L' & R').
+  exact (mux_reset_l W0 MAXW (f_sid f) rops s1 outs r' L' R').
+Qed.
+Print Assumptions c02_mux_rst_is_error.
+
+(* (e) receiver half of flow control, for ANY incoming frames: the receive buffer
+   never exceeds the receive window, which never exceeds the configured maximum,
+   and the room left is at least what was granted and not yet used (so a sender
+   that respects its credit — c02_mux_sender_cut — never overflows it) *)
+Theorem c02_mux_receive_window : forall W0 MAXW rops sid,
+  let '(s, outs) := ses_run W0 MAXW ses0 [] rops in
+  forall r, lookup sid (streams s) = Some r ->
+  buffered r <= r_win r /\ r_win r <= Nat.max W0 MAXW /\
+  W0 + granted sid outs <= r_cap r + length (delivered sid outs) + buffered r.
+Proof. exact mux_window_l. Qed.
+Print Assumptions c02_mux_receive_window.
+
+(* ---- non-vacuity -------------------------------------------------------------- *)
+(* two streams, frames interleaved, small read buffers, half-close by the reader
+   in the middle, FIN on one stream and RST on the other *)
+Definition ex_s1 := snd_run 3 (snd0 4 1) [] [] [SOpen false; SWrite [10; 11; 12; 13; 14]%N; SWnd 2; SWnd 2; SCloseW].
+Definition ex_s3 := snd_run 3 (snd0 4 3) [] [] [SOpen false; SWrite [30; 31]%N; SReset].
+
+Example ex_sender_frames :
+  map (fun f => (f_sid f, is_data f, f_fin f, f_pay f)) (ev_frames (sr_ev ex_s1)) =
+  [(1, false, false, []); (1, true, false, [10; 11; 12]%N); (1, true, false, [13]%N);
+   (1, true, false, [14]%N); (1, false, true, [])].
+Proof. vm_compute. reflexivity. Qed.
+
+Definition ex_rops : list rop :=
+  match ev_frames (sr_ev ex_s1), ev_frames (sr_ev ex_s3) with
+  | [a0; a1; a2; a3; a4], [b0; b1; b2] =>
+      [RDeliver a0; RDeliver b0; RDeliver a1; RRead 1 2 false; RDeliver b1; RCloseW 1; RDeliver a2;
+       RRead 3 1 false; RRead 1 5 false; RDeliver b2; RRead 3 9 false; RRead 1 5 false;
+       RDeliver a3; RDeliver a4; RRead 1 5 false; RRead 1 5 false]
+  | _, _ => []
+  end.
+
+Example ex_session_reads :
+  filter (fun o => match o with ORead _ _ _ => true | ONone => false end)
+         (Datatypes.snd (ses_run 4 16 ses0 [] ex_rops)) =
+  [ORead 1 (RData [10; 11]%N) (Some 2); ORead 3 (RData [30]%N) None; ORead 1 (RData [12]%N) None;
+   ORead 3 RErr None; ORead 1 (RData [13]%N) (Some 2); ORead 1 (RData [14]%N) None; ORead 1 REOF None].
+Proof. vm_compute. reflexivity. Qed.
+
+(* the monitor run on implementation traces rejects: a wrong byte, a silent
+   truncation (EOF before everything was delivered), EOF on a reset stream, an
+   error on a stream that was not reset, missing bytes at the end *)
+Example mux_monitor_rejects_wrong_byte :
+  SpecMux.mon7 10 1 0 false false [SpecMux.mkEv 4 1 8 0 4 0] = false.
+Proof. reflexivity. Qed.
+Example mux_monitor_rejects_early_eof :
+  SpecMux.mon7 10 1 0 false false [SpecMux.mkEv 4 1 8 0 4 1; SpecMux.mkEv 4 1 8 1 0 1] = false.
+Proof. reflexivity. Qed.
+Example mux_monitor_rejects_eof_on_reset :
+  SpecMux.mon7 10 2 0 false false [SpecMux.mkEv 4 1 8 0 4 1; SpecMux.mkEv 4 1 8 1 0 1] = false.
+Proof. reflexivity. Qed.
+Example mux_monitor_rejects_error_without_reset :
+  SpecMux.mon7 4 0 0 false false [SpecMux.mkEv 4 1 8 0 4 1; SpecMux.mkEv 4 1 8 2 0 1] = false.
+Proof. reflexivity. Qed.
+Example mux_monitor_rejects_missing_tail :
+  SpecMux.mon7 10 0 0 false false [SpecMux.mkEv 4 1 8 0 4 1] = false.
+Proof. reflexivity. Qed.
+Example mux_monitor_accepts_good :
+  SpecMux.mon7 10 1 0 false false [SpecMux.mkEv 4 1 8 0 4 1; SpecMux.mkEv 4 1 8 0 6 1; SpecMux.mkEv 4 1 8 1 0 1] = true.
+Proof. reflexivity. Qed.
+(* the window checker rejects a Data frame beyond the credit and one beyond the frame limit *)
+Example mux_valid_cut_rejects_overrun :
+  valid_cut 3 4 [EvF (dframe 1 [1; 2; 3]%N); EvF (dframe 1 [4; 5]%N)] = false.
+Proof. reflexivity. Qed.
+Example mux_valid_cut_rejects_big_frame :
+  valid_cut 3 10 [EvF (dframe 1 [1; 2; 3; 4]%N)] = false.
+Proof. reflexivity. Qed.
